@@ -139,6 +139,11 @@ impl ClientSession {
     pub fn is_enabled(&self) -> bool {
         self.inner.is_enabled()
     }
+
+    /// Choose the transaction id of the next request (to reach the 16-bit wrap quickly)
+    pub fn set_next_tx_id(&mut self, value: u16) {
+        self.inner.set_next_tx_id(value)
+    }
 }
 
 /// Source of connections for the TCP channel task, in place of `TcpStream::connect`
